@@ -86,7 +86,18 @@ def fit_window(shape, fit_shape, x, y):
     return rows, cols, cx, cy
 
 
-def window_facts(data, mask, fit_shape, x, y):
+def any_window(shape, wshape, x, y):
+    """(rows, cols) of the window of any (odd or even) size wshape=(h, w) 'around' (x, y), trimmed to the image:
+    indices ceil(pos - n/2) .. ceil(pos + n/2) - 1 (for odd n: centred on the pixel containing the position)."""
+    h, w = int(wshape[0]), int(wshape[1])
+    r0, r1 = int(np.ceil(y - h / 2.0)), int(np.ceil(y + h / 2.0))
+    c0, c1 = int(np.ceil(x - w / 2.0)), int(np.ceil(x + w / 2.0))
+    rows = np.arange(max(r0, 0), min(r1, shape[0]))
+    cols = np.arange(max(c0, 0), min(c1, shape[1]))
+    return rows, cols
+
+
+def window_facts(data, mask, fit_shape, x, y, centre=None):
     """Facts about one source's fit window.
 
     Returns dict: npix (unmasked finite in-image pixels), nmasked (in-image window pixels that are masked or
@@ -95,6 +106,9 @@ def window_facts(data, mask, fit_shape, x, y):
     """
     shape = data.shape
     rows, cols, cx, cy = fit_window(shape, fit_shape, x, y)
+    if centre is not None:
+        # explicit centre pixel (a position exactly on a pixel boundary belongs to either neighbour)
+        rows, cols, cx, cy = fit_window(shape, fit_shape, float(centre[0]), float(centre[1]))
     full = int(fit_shape[0]) * int(fit_shape[1])
     sub = data[np.ix_(rows, cols)]
     good = np.isfinite(sub)
@@ -174,3 +188,9 @@ def selftest():
     e = flag_expectations(dict(nmasked=1, trimmed=False), 11.3, 3.0, -1.0, (10, 12), True, True, True)
     assert e[1] is True and e[2] is None and e[4] and e[8] and e[16] and e[32]
     assert half_integer_free([1.2, 3.49]) and not half_integer_free([2.5])
+    for (xx_, yy_) in ((5.3, 4.6), (0.4, 9.2), (-0.7, 3.0), (11.49, 0.2)):
+        r1, c1, _, _ = fit_window((10, 12), (5, 7), xx_, yy_)
+        r2, c2 = any_window((10, 12), (5, 7), xx_, yy_)
+        assert list(r1) == list(r2) and list(c1) == list(c2)
+    r, c = any_window((10, 12), (4, 6), 5.3, 4.6)      # even sizes: ceil(4.6-2)=3..6, ceil(5.3-3)=3..8
+    assert list(r) == [3, 4, 5, 6] and list(c) == [3, 4, 5, 6, 7, 8]
